@@ -52,6 +52,7 @@ class Vars(list):
     cused = None
     smemo = None
     sused = None
+    reuse_condition_objects = False
 
 
 def build_term(t, V):
@@ -147,7 +148,7 @@ def build_cond(c, V):
             # a condition-position occurrence may share its object with value-position occurrences, but one object is
             # never used as a condition TWICE (not_() rewrites its operands in place)
             key = "truth:" + json.dumps(c[1], sort_keys=True)
-            if key in memo:
+            if key in memo and not getattr(V, "reuse_condition_objects", False):
                 return _build_term(c[1], V)
             memo[key] = True
         return build_term(c[1], V)
@@ -243,6 +244,7 @@ def declare_vars(case, objs, containers=None):
     if case.get("share_terms") or os.environ.get("EQLV_FORCE_SHARE"):
         V = Vars(V)
         V.memo = {}
+        V.reuse_condition_objects = bool(case.get("same_object_plain_and_negated"))
     return V, conts
 
 
